@@ -58,6 +58,8 @@ var _ backoff.BackOff
 //@    s.messageLayer.Body == c.Operation().Body && s.messageLayer.Enterprise == c.Operation().Enterprise
 //@ ensures [C18.retry] metric(commandRetries) == old(metric(commandRetries))+ite(old(firstAttempt), 0, 1)
 //@ ensures [keep.metrics] metricsOnly(commandRetries, commandResponses)
+//@ at CounterVec).WithLabelValues assert [C18.response-counted] sends() == old(sends())+1 && s.v2SessionLayer.ID == s.LocalID && s.messageLayer.Function == c.Operation().Function+1 && s.messageLayer.Command == c.Operation().Command &&
+//@    s.messageLayer.Body == c.Operation().Body && s.messageLayer.Enterprise == c.Operation().Enterprise // only a reply of this session to the command that was sent is counted as a response
 
 // ---- v2sessionless.go: the retry closures of session-less commands and RMCP+ payloads
 
@@ -74,6 +76,8 @@ var _ backoff.BackOff
 //@    s.messageLayer.Body == c.Operation().Body && s.messageLayer.Enterprise == c.Operation().Enterprise
 //@ ensures [C18.retry] metric(commandRetries) == old(metric(commandRetries))+ite(old(firstAttempt), 0, 1)
 //@ ensures [keep.metrics] metricsOnly(commandRetries, commandResponses)
+//@ at CounterVec).WithLabelValues assert [C18.response-counted] sends() == old(sends())+1 && s.messageLayer.Function == c.Operation().Function+1 && s.messageLayer.Command == c.Operation().Command &&
+//@    s.messageLayer.Body == c.Operation().Body && s.messageLayer.Enterprise == c.Operation().Enterprise // only a reply to the command that was sent is counted as a response
 
 //@ func (*V2Sessionless).buildAndSendPayload$1
 //@ props C05 C10 C13 C18
@@ -441,6 +445,10 @@ func specHMACInit(a ipmi.AuthenticationAlgorithm, key []byte) int {
 //@ at V2Sessionless).SendCommand assert [C16.next-after-full] getChannelCipherSuitesCmd.Req.ListIndex > 0 ==> len(getChannelCipherSuitesCmd.Rsp.CipherSuiteRecordsChunk) >= 16
 //@ at Buffer).Write assert [C16.chunk-joined] aliases(arg[[]byte](1), getChannelCipherSuitesCmd.Rsp.CipherSuiteRecordsChunk, 0, len(getChannelCipherSuitesCmd.Rsp.CipherSuiteRecordsChunk))
 //@ at Buffer).Bytes assert [C16.stop] getChannelCipherSuitesCmd.Req.ListIndex == 64 || len(getChannelCipherSuitesCmd.Rsp.CipherSuiteRecordsChunk) < 16
+//@ invariant 0 [C16.joined-so-far] bufWrites(&cipherSuiteRecordData) == int(getChannelCipherSuitesCmd.Req.ListIndex) // every chunk received so far has been joined, once
+//@ at V2Sessionless).SendCommand assert [C12+C16.index-is-joined] bufWrites(&cipherSuiteRecordData) == int(getChannelCipherSuitesCmd.Req.ListIndex) // the list index asked for is the number of chunks already joined
+//@ at Buffer).Bytes assert [C12+C16.all-joined] bufWrites(&cipherSuiteRecordData) == int(getChannelCipherSuitesCmd.Req.ListIndex)+1 // the last chunk - the short one - is joined too
+//@ at parseCipherSuiteRecordData assert [C12+C16.parsed-is-joined] len(arg[[]byte](0)) == bufLen(&cipherSuiteRecordData)
 //@ invariant 0 [inv.loop-a] connValid(s.V2Sessionless)
 //@ invariant 0 [inv.loop-b] s.V2Sessionless == old(s.V2Sessionless)
 //@ invariant 0 [inv.loop-c] !isnil(s.V2Sessionless)
@@ -521,6 +529,8 @@ func specHMACInit(a ipmi.AuthenticationAlgorithm, key []byte) int {
 //@ at mapupdate assert [C14.own-id] arg[ipmi.RecordID](1) == header.ID && header.Type == ipmi.RecordTypeFullSensor && !isnil(arg[*ipmi.FullSensorRecord](2))
 //@ at mapupdate assert [C14.record-bytes] len(getSDRCmd.Rsp.Payload) >= 43 && arg[*ipmi.FullSensorRecord](2).Number == getSDRCmd.Rsp.Payload[2] && arg[*ipmi.FullSensorRecord](2).OwnerLUN == ipmi.LUN(getSDRCmd.Rsp.Payload[1]%4) &&
 //@    arg[*ipmi.FullSensorRecord](2).Linearisation == ipmi.Linearisation(getSDRCmd.Rsp.Payload[18]%128) && arg[*ipmi.FullSensorRecord](2).AnalogDataFormat == ipmi.AnalogDataFormat(getSDRCmd.Rsp.Payload[15]/64)
+//@ at store:RecordID assert [C14.stored-before-advance] header.Type == ipmi.RecordTypeFullSensor ==> hasKey(repo, header.ID) // the walk moves on from a Full Sensor Record only once it is in the result: no record is skipped
+//@ ensures [C14.complete-walk] result1 == nil ==> getSDRCmd.Req.RecordID == ipmi.RecordIDLast // a walk that succeeds has followed the chain to its end (0xFFFF), whatever the order of the IDs
 //@ ensures [C14.no-partial] result1 != nil ==> isnil(result0)
 //@ ensures [C14.fresh-result] result1 == nil ==> isnewmap(result0) // a retried walk starts from an empty map: nothing of an abandoned walk survives
 
